@@ -10,6 +10,7 @@
 -/
 import N2V.Lemmas.SchedTrace
 import N2V.Lemmas.SchedFrame
+import N2V.Lemmas.SchedProgress
 import N2V.Lemmas.SchedWant
 namespace N2V.Sched
 
@@ -24,13 +25,14 @@ structure WRel (g : Graph) (par : Nat) (s s' : S) : Prop where
   mono : ∀ b, s.st b = .unknown → s'.st b = .unknown ∨ s'.st b = .want ∨ s'.st b = .ready
   tinv : ∀ shape, TInv g par shape s → TInv g par shape s'
   frm : Frame s s'
+  pinv : PInv g s → PInv g s'
 
 theorem WRel.refl {g : Graph} {par : Nat} {s : S} (inv : Inv g par s) : WRel g par s s :=
-  ⟨inv, fun _ _ => rfl, fun _ h => Or.inl h, fun _ t => t, Frame.refl s⟩
+  ⟨inv, fun _ _ => rfl, fun _ h => Or.inl h, fun _ t => t, Frame.refl s, fun q => q⟩
 
 theorem WRel.trans {g : Graph} {par : Nat} {a b c : S} (h1 : WRel g par a b) (h2 : WRel g par b c) :
     WRel g par a c := by
-  refine ⟨h2.inv, ?_, ?_, fun sh t => h2.tinv sh (h1.tinv sh t), h1.frm.trans h2.frm⟩
+  refine ⟨h2.inv, ?_, ?_, fun sh t => h2.tinv sh (h1.tinv sh t), h1.frm.trans h2.frm, fun q => h2.pinv (h1.pinv q)⟩
   · intro x hx
     have := h1.frame x hx
     rw [h2.frame x (by rw [this]; exact hx), this]
@@ -43,7 +45,8 @@ theorem WRel.trans {g : Graph} {par : Nat} {a b c : S} (h1 : WRel g par a b) (h2
 def PF (g : Graph) (par : Nat) (s : S) (f : Nat) : WR Bool → Prop
   | .ok r s' => WRel g par s s' ∧
       (r = true → s' = s ∧ ∀ p, g.producer f = some p → s.st p = .done) ∧
-      (r = false → ∃ p, g.producer f = some p ∧ s'.st p ≠ .done ∧ s'.st p ≠ .unknown)
+      (r = false → ∃ p, g.producer f = some p ∧ s'.st p ≠ .done ∧ s'.st p ≠ .unknown) ∧
+      (∀ p, g.producer f = some p → s'.st p ≠ .unknown)
   | .err _ s' => WRel g par s s'
   | .bad _ => True
 
@@ -56,7 +59,8 @@ def PI (g : Graph) (par : Nat) (s : S) (fs : List Nat) (rd : Bool) : WR Bool →
   | .ok r s' => WRel g par s s' ∧
       (r = true → s' = s ∧ rd = true ∧ ∀ f ∈ fs, ∀ p, g.producer f = some p → s.st p = .done) ∧
       (r = false → rd = false ∨
-        ∃ f ∈ fs, ∃ p, g.producer f = some p ∧ s'.st p ≠ .done ∧ s'.st p ≠ .unknown)
+        ∃ f ∈ fs, ∃ p, g.producer f = some p ∧ s'.st p ≠ .done ∧ s'.st p ≠ .unknown) ∧
+      (∀ f ∈ fs, ∀ p, g.producer f = some p → s'.st p ≠ .unknown)
   | .err _ s' => WRel g par s s'
   | .bad _ => True
 
@@ -70,7 +74,9 @@ theorem set_want_inv {g : Graph} {par : Nat} {s s' : S} {id : Nat} {new : St}
     (inv : Inv g par s) (hid : id < g.nBuilds) (h : set g s id new = .ok s')
     (hnew : new = .want ∨ new = .ready)
     (hprev : s.st id = .unknown ∨ (s.st id = .want ∧ new = .want))
-    (hord : new = .ready → ∀ f ∈ (g.build id).ordering, ∀ p, g.producer f = some p → s.st p = .done) :
+    (hord : new = .ready → ∀ f ∈ (g.build id).ordering, ∀ p, g.producer f = some p → s.st p = .done)
+    (hw : new = .want → recheckReady g s id = false)
+    (hclo : ∀ f ∈ (g.build id).ordering, ∀ p, g.producer f = some p → s.st p ≠ .unknown) :
     WRel g par s s' := by
   have hp1 : s.st id ≠ .done ∧ s.st id ≠ .failed ∧ s.st id ≠ .ready ∧ s.st id ≠ .queued ∧ s.st id ≠ .running := by
     rcases hprev with h | ⟨h, _⟩ <;> rw [h] <;> simp
@@ -88,7 +94,7 @@ theorem set_want_inv {g : Graph} {par : Nat} {s s' : S} {id : Nat} {new : St}
     · rw [h]; rcases hnew with h' | h' <;> rw [h'] <;> rfl
     · rw [h, h2]; rfl
   refine ⟨{ hcore with running := hlim.1, parBound := hlim.2.1, depthBound := hlim.2.2 }, ?_, ?_,
-          fun sh t => set_tinv t hcore.exact h hid hlegal (fun e => absurd e hn1.2), set_frm h⟩
+          fun sh t => set_tinv t hcore.exact h hid hlegal (fun e => absurd e hn1.2), set_frm h, ?_⟩
   · intro b hb
     rw [hst]
     by_cases e : b = id
@@ -102,6 +108,55 @@ theorem set_want_inv {g : Graph} {par : Nat} {s s' : S} {id : Nat} {new : St}
     by_cases e : b = id
     · subst e; simp; rcases hnew with h | h <;> simp [h]
     · rw [upd_other _ _ _ _ e]; exact Or.inl hb
+
+  · intro q
+    obtain ⟨_, _, -, -, _, -, -, hrd, -, -, htf, -⟩ := set_spec h
+    have hdone : ∀ x, (s'.st x = .done ↔ s.st x = .done) := by
+      intro x; rw [hst]
+      by_cases e : x = id
+      · subst e
+        simp
+        constructor
+        · intro e'; rcases hnew with h' | h' <;> rw [h'] at e' <;> cases e'
+        · intro e'; exact absurd e' hp1.1
+      · rw [upd_other _ _ _ _ e]
+    refine ⟨?_, ?_, ?_, ?_, ?_⟩
+    · intro b hb
+      rw [hrd]
+      rw [hst] at hb
+      by_cases e : b = id
+      · subst e
+        simp at hb
+        simp [hb]
+      · rw [upd_other _ _ _ _ e] at hb
+        have := q.rdy b hb
+        split <;> simp [this]
+    · intro b hb
+      rw [hst] at hb
+      by_cases e : b = id
+      · subst e; simp at hb; rcases hnew with h' | h' <;> rw [h'] at hb <;> cases hb
+      · rw [upd_other _ _ _ _ e] at hb
+        exact set_queued_mem h b (q.que b hb)
+    · intro b hb
+      rw [recheckReady_congr g s s' b hdone]
+      rw [hst] at hb
+      by_cases e : b = id
+      · subst e; simp at hb; exact hw hb
+      · rw [upd_other _ _ _ _ e] at hb; exact q.wnt b hb
+    · intro b hb f hf p hp
+      rw [hst] at hb ⊢
+      by_cases e : p = id
+      · subst e; simp; exact hn1.1
+      · rw [upd_other _ _ _ _ e]
+        by_cases e2 : b = id
+        · subst e2; exact hclo f hf p hp
+        · rw [upd_other _ _ _ _ e2] at hb; exact q.clo b hb f hf p hp
+    · intro b hb
+      rw [htf]
+      rw [hst] at hb
+      by_cases e : b = id
+      · subst e; simp at hb; rcases hnew with h' | h' <;> rw [h'] at hb <;> cases hb
+      · rw [upd_other _ _ _ _ e] at hb; exact q.fld b hb
 
 theorem want_inv_all {g : Graph} {par : Nat} (gok : GraphOK g) : ∀ fuel : Nat,
     (∀ s stack f, Inv g par s → PF g par s f (wantFile g fuel s stack f)) ∧
@@ -120,14 +175,17 @@ theorem want_inv_all {g : Graph} {par : Nat} (gok : GraphOK g) : ∀ fuel : Nat,
       · exact WRel.refl inv
       · split
         · rename_i hprod
-          refine ⟨WRel.refl inv, fun _ => ⟨rfl, ?_⟩, fun h => by cases h⟩
-          intro p hp; rw [hprod] at hp; cases hp
+          refine ⟨WRel.refl inv, fun _ => ⟨rfl, ?_⟩, (fun h => by cases h), ?_⟩
+          · intro p hp; rw [hprod] at hp; cases hp
+          · intro p hp; rw [hprod] at hp; cases hp
         · rename_i bid hprod
           have hb := ihB s (stack ++ [f]) bid inv (gok f bid hprod)
           split <;> rename_i hw <;> rw [hw] at hb
           · rename_i state s'
             obtain ⟨rel, hst, hne, hdone⟩ := hb
-            refine ⟨rel, ?_, ?_⟩
+            refine ⟨rel, ?_, ?_, ?_⟩
+            rotate_left 2
+            · intro p hp; rw [hprod] at hp; cases hp; rw [hst]; exact hne
             · intro hd
               have hd' : state = .done := by simpa using hd
               have e := hdone hd'
@@ -150,7 +208,7 @@ theorem want_inv_all {g : Graph} {par : Nat} (gok : GraphOK g) : ∀ fuel : Nat,
         split
         · rename_i rd s1 hins
           rw [hins] at hi
-          obtain ⟨rel1, htrue, hfalse⟩ := hi
+          obtain ⟨rel1, htrue, hfalse, hclo1⟩ := hi
           simp only []
           generalize hstate : (if rd = true then St.ready else St.want) = state
           have hnew : state = .want ∨ state = .ready := by rw [← hstate]; split <;> simp
@@ -163,9 +221,18 @@ theorem want_inv_all {g : Graph} {par : Nat} (gok : GraphOK g) : ∀ fuel : Nat,
                 obtain ⟨e, -, hall⟩ := htrue rfl
                 subst e
                 exact set_want_inv rel1.inv hid hs hnew (Or.inl hunk) (fun _ => hall)
+                  (fun e => by rw [← hstate] at e; simp at e) hclo1
               | false =>
                 have hw : state = .want := by rw [← hstate]; simp
-                apply set_want_inv rel1.inv hid hs hnew _ (fun e => by rw [hw] at e; cases e)
+                have hrf : recheckReady g s1 id = false := by
+                  cases hrr : recheckReady g s1 id with
+                  | false => rfl
+                  | true =>
+                    exfalso
+                    rcases hfalse rfl with h0 | ⟨f, hf, p, hp, hnd, -⟩
+                    · cases h0
+                    · exact hnd (recheckReady_sound g s1 id hrr f hf p hp)
+                refine set_want_inv rel1.inv hid hs hnew ?_ (fun e => by rw [hw] at e; cases e) (fun _ => hrf) hclo1
                 rcases rel1.mono id hunk with h | h | h
                 · exact Or.inl h
                 · exact Or.inr ⟨h, hw⟩
@@ -192,20 +259,26 @@ theorem want_inv_all {g : Graph} {par : Nat} (gok : GraphOK g) : ∀ fuel : Nat,
       cases fs with
       | nil =>
         simp only [wantIns]
-        refine ⟨WRel.refl inv, fun h => ⟨rfl, h, by simp⟩, fun h => Or.inl h⟩
+        refine ⟨WRel.refl inv, fun h => ⟨rfl, h, by simp⟩, fun h => Or.inl h, by simp⟩
       | cons f fs =>
         simp only [wantIns]
         have hf := ihF s stack f inv
         split <;> rename_i hff <;> rw [hff] at hf
         · rename_i r s'
-          obtain ⟨relf, ftrue, ffalse⟩ := hf
+          obtain ⟨relf, ftrue, ffalse, fclo⟩ := hf
           have h2 := ihI s' stack fs (rd && r) relf.inv
           revert h2
           cases wantIns g fuel s' stack fs (rd && r) with
           | ok r2 s2 =>
             intro h2
-            obtain ⟨rel2, itrue, ifalse⟩ := h2
-            refine ⟨relf.trans rel2, ?_, ?_⟩
+            obtain ⟨rel2, itrue, ifalse, iclo⟩ := h2
+            refine ⟨relf.trans rel2, ?_, ?_, ?_⟩
+            rotate_left 2
+            · intro x hx p hp
+              simp at hx
+              rcases hx with rfl | hx
+              · rw [rel2.frame p (fclo p hp)]; exact fclo p hp
+              · exact iclo x hx p hp
             · intro hr2
               obtain ⟨e2, hand, hall⟩ := itrue hr2
               have hrd : rd = true ∧ r = true := by simpa using hand
